@@ -301,6 +301,19 @@ def _run_rmse(case, ctx):
         return
     ctx.count("fit_ok", name)
     _check_logged(ctx, res[1], name, p, l)
+    # ---- a fit that was not allowed to finish (two function evaluations) either says so or is a fit nevertheless:
+    # restarting from what it returned must not find a clearly better curve
+    if name != "Virial":
+        lim_ = _call(pygaps.ModelIsotherm, pressure=list(p), loading=list(l), model=name, material="verif-c12", adsorbate=ads, temperature=T, optimization_params={"max_nfev": 2}, **units)
+        ctx.case(["budget", name, case["seed"]])
+        if lim_[0] != "ok":
+            ctx.count("evaluation_budget", "refused" if _is_calc(lim_[1]) else type(lim_[1]).__name__)
+        else:
+            again = _call(pygaps.ModelIsotherm, pressure=list(p), loading=list(l), model=name, material="verif-c12", adsorbate=ads, temperature=T, param_guess=dict(lim_[1].model.params), **units)
+            ctx.count("evaluation_budget", "returned")
+            if again[0] == "ok" and float(again[1].model.rmse) < 0.9 * float(lim_[1].model.rmse) - 1e-12:
+                ctx.violation("fit/unconverged-fit-returned-as-converged", "a fit that ran out of function evaluations was returned without an error: restarting from it finds a clearly better curve", model=name,
+                              rmse_returned=float(lim_[1].model.rmse), rmse_after_restart=float(again[1].model.rmse))
 
 
 def _run_guess(case, ctx):
